@@ -306,6 +306,13 @@ Definition fobs_monitor (o : fobs) : bool :=
           let f := obs_feeds os (bo_name a) b in                         (* A feeds B *)
           Bool.eqb ab ba && Bool.eqb ba f) os) os
       && forallb conf_matches os
+      && forallb (fun o =>            (* the inverter behind '_not_NAME' is wired to NAME only *)
+           if String.prefix not_prefix (bo_name o) && negb (sixth_is_underscore (bo_name o)) then
+             match bo_inputs o with
+             | Some [(_, inr [RBlk x])] => String.eqb x (strip_not (bo_name o))
+             | _ => false
+             end
+           else true) os
       && forallb (fun nwr => match nwr with
                              | (n, _, Ok x) => String.eqb n x
                              | (_, _, Err _) => false end) (fo_named o)
